@@ -135,14 +135,21 @@ pub fn run_stress(s: &Scenario) -> Vec<Fail> {
         let end = s.end.clone();
         let (tx, rx) = std::sync::mpsc::channel();
         std::thread::spawn(move || {
-            let mut pool = pool;
-            if end == End::StopThenDrop {
-                pool.stop();
-            }
-            drop(pool);
-            let _ = tx.send(());
+            let r = crate::engine::catch(move || {
+                let mut pool = pool;
+                if end == End::StopThenDrop {
+                    pool.stop();
+                }
+                drop(pool);
+            });
+            let _ = tx.send(r);
         });
-        if rx.recv_timeout(Duration::from_secs(10)).is_err() {
+        let ended = rx.recv_timeout(Duration::from_secs(10));
+        if let Ok(Err(p)) = &ended {
+            fails.push(fail!("caller-panicked", "stopping/dropping a {}-thread pool with {} queued tasks panicked in the caller: {}", n, s.tasks.len(), p));
+            return fails;
+        }
+        if ended.is_err() {
             fails.push(fail!("early-drop-hangs", "stopping/dropping a {}-thread pool with {} queued tasks did not return within 10 s", n, s.tasks.len()));
             return fails;
         }
@@ -252,14 +259,21 @@ pub fn run_stress(s: &Scenario) -> Vec<Fail> {
     let end = s.end.clone();
     let (tx, rx) = std::sync::mpsc::channel();
     std::thread::spawn(move || {
-        let mut pool = pool;
-        if end == End::StopThenDrop {
-            pool.stop();
-        }
-        drop(pool);
-        let _ = tx.send(());
+        let r = crate::engine::catch(move || {
+            let mut pool = pool;
+            if end == End::StopThenDrop {
+                pool.stop();
+            }
+            drop(pool);
+        });
+        let _ = tx.send(r);
     });
-    if rx.recv_timeout(Duration::from_secs(10)).is_err() {
+    let ended = rx.recv_timeout(Duration::from_secs(10));
+    if let Ok(Err(p)) = &ended {
+        fails.push(fail!("caller-panicked", "{} a started {}-thread pool panicked in the caller: {}", if s.end == End::DropOnly { "dropping (without stop)" } else { "stop() followed by dropping" }, n, p));
+        return fails;
+    }
+    if ended.is_err() {
         fails.push(fail!(
             if s.end == End::DropOnly { "drop-without-stop-hangs" } else { "stop-then-drop-hangs" },
             "{} a started {}-thread pool did not return within 10 s",
